@@ -1,0 +1,20 @@
+//go:build !verif
+
+package hermes
+
+// Verification hooks (build tag "verif"). With the tag off every hook is an
+// empty function that the compiler inlines away; the model is unchanged.
+
+type verifCtx struct{}
+
+func verifNewCtx(g *GlobalVarsMain, w *WaterSharedVars, n *NitroSharedVars, c *CropSharedVars, i *InputSharedVars) *verifCtx {
+	return nil
+}
+func verifSetConfig(vc *verifCtx, cfg *Config)                                    {}
+func verifProbe(vc *verifCtx, site string, zeit, subd int, wdt, steps float64)    {}
+func verifRunEnd(vc *verifCtx, err error)                                         {}
+func verifConfigRead(g *GlobalVarsMain, cfg *Config, argValues map[string]string) {}
+func verifNClamp(g *GlobalVarsMain, site string, z int, amount float64)           {}
+func verifTick(site string)                                                       {}
+func verifDelay(site string)                                                      {}
+func verifTrace(kind string, logID string)                                        {}
